@@ -5,9 +5,9 @@
    generated call history on the real engine. *)
 From Coq Require Import List Arith ZArith Bool.
 Import ListNotations.
-From Acts.Gen Require Import GenState GenUpdate.
+From Acts.Gen Require Import GenState GenReturn.
 From Acts.Model Require Import Engine Multi.
-From Acts.Proofs Require Import MultiProofs C02Core C02Ops FinalProofs UpdateTable.
+From Acts.Proofs Require Import MultiProofs C02Core C02Ops FinalProofs ActionNames ReturnMap.
 
 Theorem C15_accepted_observation :
   forall o, call_check o = [] -> co_missing o = false ->
@@ -66,7 +66,7 @@ Example C15_example :
                    co_parent_end := None; co_inputs_ok := true; co_outs_ok := true; co_unsatisfied := false; co_quiescent := true |} = [1501].
 Proof. vm_compute. auto. Qed.
 
-(* the return mapping, statically tied to the source: gen/GenUpdate.v is regenerated from Runtime::return_to_act
+(* the return mapping, statically tied to the source: gen/GenReturn.v is regenerated from Runtime::return_to_act
    (acts/src/scheduler/runtime.rs) on every run -- the arms of `match state` and its default.  The action the model
    sends to the calling act for a child that ended in state s is the action the source's table names, for every
    state; and the state the calling act is closed with (`return_state`, what the checker expects) is the one that
